@@ -150,7 +150,14 @@ Definition sort_by (p : priority) (subs : list sub) : option (list sub) :=
   | _ => if (2 <=? length subs) && existsb (fun g => match pkey p g with None => true | _ => false end) subs
          then None else Some (ssort (ple p) subs)
   end.
-(* for priority in config.priority.iter().rev() *)
+(* decisive_count: the priority list is cut after its first top / bottom (they refer to the order in the input and
+   leave no ties, so what follows them is ignored and they see the ORIGINAL order) - /repo 7054be1 *)
+Fixpoint decisive (ps : list priority) : list priority :=
+  match ps with
+  | [] => []
+  | p :: r => if is_tb p then [p] else p :: decisive r
+  end.
+(* for priority in config.priority[..decisive_count].iter().rev() *)
 Definition sort_all (ps : list priority) (subs : list sub) : option (list sub) :=
   fold_right (fun p acc => match acc with Some l => sort_by p l | None => None end) (Some subs) ps.
 
@@ -170,7 +177,7 @@ Definition partition (c : dcfg) (glen : N) (ms : list meta) : outcome (list meta
   let files := survivors c glen ms in
   if (match mbefore c with Some ts => was_modified ts files | None => false end) then Err EModified
   else
-    match sort_all (prio c) (subgroups c files) with
+    match sort_all (decisive (prio c)) (subgroups c files) with
     | None => Err ESortKey
     | Some sorted =>
       let '(retain, drop) := List.partition (forced c) sorted in
